@@ -2,7 +2,7 @@
 valid).  No `==` nested inside functions, no `onmatch`/`onchange`/`once`, counters and `every`
 always carry a name qualifier."""
 
-WORDS = ["x", "y", "zed", "Fish", "bat man"]
+WORDS = ["x", "y", "zed", "Fish", "bat man", "fish", "FISH", "X"]
 
 
 def hdr(r):
@@ -14,7 +14,7 @@ def nhdr(r):
 
 
 def sterm(r):
-    return '"' + r.choice(["x", "y", "zed", "Fish", "bat man", "1", "3", ""]) + '"'
+    return '"' + r.choice(["x", "y", "zed", "Fish", "fish", "bat man", "1", "3", "1.0", ""]) + '"'
 
 
 def nterm(r):
@@ -57,6 +57,10 @@ def value(r, d=0):
 
 def cond(r, d=0):
     k = r.random()
+    if d == 0 and k < 0.14:
+        # `==` between two values, top level only (a function of an equality is outside the model);
+        # near-miss pairs (case variants, 1 / 1.0 / 01) come from the data pools
+        return f"{r.choice([hdr, hdr, var, nhdr])(r)} == {r.choice([sterm, sterm, nterm, hdr, var])(r)}"
     if d >= 2 or k < 0.22:
         return r.choice([lambda: hdr(r), lambda: "yes()", lambda: "no()", lambda: var(r)])()
     if k < 0.4:
@@ -103,8 +107,13 @@ def effect(r):
         return f'print("{r.choice(["hello", "a line", "x=1; y=2", "two  blanks"])}")'
     if k < 0.84:
         return f'put("w", {value(r, 1)})'
-    if k < 0.92:
+    if k < 0.9:
         return f"@t = {r.choice(['count_lines()', 'count_scans()', 'line_number()', 'add(@t, 1)'])}"
+    if k < 0.97:
+        # the named bookkeeping of C03
+        return r.choice([f"first{quals(r, ['seen'], 0.5)}({hdr(r)})", f"tally{quals(r, ['tl'], 0.4)}({hdr(r)})",
+                         f"tally({hdr(r)}, {hdr(r)})", f"sum{quals(r, ['total'], 0.5)}({nhdr(r)})",
+                         f"subtotal{quals(r, ['st'], 0.5)}({hdr(r)}, {nhdr(r)})"])
     return 'stack("s")'
 
 
@@ -161,7 +170,7 @@ def gen_file(r, max_recs=9):
         row = []
         for j in range(width):
             if j == 2:
-                row.append(str(r.choice([0, 1, 2, 3, 5, 10, 12, -1])))
+                row.append(str(r.choice([0, 1, 2, 3, 5, 10, 12, -1])) if r.random() < 0.9 else r.choice(["1.0", "01", "3.0", "1"]))
             elif j == 1:
                 row.append(str(r.randint(0, 4)) if r.random() < 0.6 else r.choice(WORDS))
             else:
